@@ -572,6 +572,25 @@ impl Session {
         Ok(output_frame_buffer)
     }
 
+    /// Send the transfers that are waiting for the remote-incoming-window, as far as the
+    /// (updated) window allows
+    #[cfg(feature = "acceptor")]
+    pub(crate) fn drain_buffered_transfers(
+        &mut self,
+    ) -> Result<Option<SessionOutgoingItem>, SessionInnerError> {
+        if self.remote_incoming_window > 0
+            && !self.remote_incoming_window_exhausted_buffer.is_empty()
+        {
+            let output_frame_buffer =
+                Vec::with_capacity(self.remote_incoming_window_exhausted_buffer.len());
+            let frames =
+                self.prepare_session_frames_from_buffered_transfers(output_frame_buffer)?;
+            Ok(Some(SessionOutgoingItem::MultipleFrames(frames)))
+        } else {
+            Ok(None)
+        }
+    }
+
     /// Drain the buffered transfers frames and current transfer frame as much as possible
     fn prepare_session_frames_from_buffered_and_current_transfers(
         &mut self,
